@@ -99,19 +99,42 @@ class _Unique(object):
 
 
 class _Nulls(object):
-    def __init__(self, m):
+    def __init__(self, m, col=None, inverted=False):
         self.m = m
+        self.col = col
+        self.inverted = inverted
+
+    def __invert__(self):
+        return _Nulls(self.m, self.col, not self.inverted)
 
 
 class _Col(object):
-    def __init__(self, u, m):
-        self.u, self.m = u, m
+    def __init__(self, u, m, n=None):
+        self.u, self.m, self.n = u, m, n
 
     def unique(self):
         return _Unique(self.u)
 
     def isnull(self):
-        return _Nulls(self.m)
+        return _Nulls(self.m, self)
+
+    def notnull(self):
+        return _Nulls(self.m, self, True)
+
+    def dropna(self):
+        return self[self.notnull()]
+
+    def __getitem__(self, mask):
+        """column[~isnull] -> the non-missing values: u - [m>0] distinct, no missing;
+        column[isnull] -> only missing values"""
+        if isinstance(mask, _Nulls) and mask.col is self:
+            zero = PFP(fp.fpval(0.0), True)
+            if mask.inverted:
+                d = PFP(z3.If(z3.fpGT(self.m.t, fp.fpval(0.0)), z3.fpSub(fp.RNE, self.u.t, fp.fpval(1.0)), self.u.t), True)
+                return _Col(d, zero)
+            one_or_zero = PFP(z3.If(z3.fpGT(self.m.t, fp.fpval(0.0)), fp.fpval(1.0), fp.fpval(0.0)), True)
+            return _Col(one_or_zero, self.m)
+        raise KeyError(mask)
 
 
 class ProfTable(pdmodel.FakeFrame):
@@ -138,6 +161,8 @@ def sym_len(x):
 
 def sym_sum(x, *a):
     if isinstance(x, _Nulls):
+        if x.inverted:
+            raise TypeError('sum of an inverted mask is not modelled')
         return x.m
     return sum(x, *a)
 
@@ -257,10 +282,15 @@ def make(cfg):
                 if isinstance(gs, fp.SymFP) and isinstance(gp, fp.SymFP) and gs.t.eq(ws.t) and \
                         z3.simplify(gp.t).eq(z3.simplify(wp.t)):
                     continue          # syntactically the expected terms
-                same = SymBool(z3.And(z3.fpEQ(fp.lift(gs), ws.t), z3.fpEQ(fp.lift(gp), wp.t)))
-                if not same:
-                    msg = 'a reported count/percentage is not the exact count and its 2-decimal percentage'
-                    raise Violation('C17/format: ' + msg, detail('format', msg, a))
+                # two separate decisions: the count first (cheap), the percentage only afterwards
+                if not (isinstance(gs, fp.SymFP) and gs.t.eq(ws.t)):
+                    if not SymBool(z3.fpEQ(fp.lift(gs), ws.t)):
+                        msg = 'a reported count is not the exact count'
+                        raise Violation('C17/format: ' + msg, detail('format', msg, a))
+                if not (isinstance(gp, fp.SymFP) and z3.simplify(gp.t).eq(z3.simplify(wp.t))):
+                    if not SymBool(z3.fpEQ(fp.lift(gp), wp.t)):
+                        msg = 'a reported percentage is not the 2-decimal percentage of the exact count'
+                        raise Violation('C17/format: ' + msg, detail('format', msg, a))
             key_ok = SymBool(z3.And(z3.fpEQ(u.t, n.t), z3.fpEQ(m.t, fp.fpval(0.0))))
             has_missing = SymBool(z3.fpGT(m.t, fp.fpval(0.0)))
             if is_key:
